@@ -1,6 +1,6 @@
 (* Props/C15.v — C15 property theorems only. *)
 From Coq Require Import List String Ascii Bool.
-From Verif Require Import Base.StrX Model.C15_Ref Proofs.C15 Proofs.C15rt.
+From Verif Require Import Base.StrX Model.C15_Ref Proofs.C15 Proofs.C15rt Gen.RefRegex.
 Import ListNotations.
 
 (* strings outside the grammar are rejected: whatever [parse] accepts has a well-formed tag
@@ -68,3 +68,15 @@ Example C15_roundtrip_examples :
   pp "ocidir://path/to dir:tag" = Some "ocidir://path/to dir:tag"%string /\
   pp "ocifile://x.tar" = Some "ocifile://x.tar"%string.
 Proof. vm_compute. repeat split. Qed.
+
+(* the tie of the hand-written recognisers to the source text: Gen/RefRegex.v is regenerated on every run by the
+   translator (extract/refregex.go evaluates the string expressions of the var block of types/ref/ref.go) and must be,
+   character for character, the four regular expressions the recognisers of Model/C15_Ref.v were written for *)
+Open Scope string_scope.
+Example C15_regex_sources_pinned : ref_regex_sources = [
+  ("schemeRE", "^([a-z]+)://(.+)$");
+  ("registryRE", "^((?:(?:(?:[a-zA-Z0-9](?:[a-zA-Z0-9-]*[a-zA-Z0-9])?)(?:(?:\.(?:[a-zA-Z0-9](?:[a-zA-Z0-9-]*[a-zA-Z0-9])?))+\.?|\.))|(?:(?:[a-zA-Z0-9](?:[a-zA-Z0-9-]*[a-zA-Z0-9])?)(?:\.(?:[a-zA-Z0-9](?:[a-zA-Z0-9-]*[a-zA-Z0-9])?))*\.?:[0-9]+)|(?:[a-zA-Z0-9]*[A-Z][a-zA-Z0-9-]*[a-zA-Z0-9]|[a-zA-Z0-9][a-zA-Z0-9-]*[A-Z][a-zA-Z0-9]*)|localhost(?::[0-9]+)?))$");
+  ("refRE", "^(?:((?:(?:(?:[a-zA-Z0-9](?:[a-zA-Z0-9-]*[a-zA-Z0-9])?)(?:(?:\.(?:[a-zA-Z0-9](?:[a-zA-Z0-9-]*[a-zA-Z0-9])?))+\.?|\.))|(?:(?:[a-zA-Z0-9](?:[a-zA-Z0-9-]*[a-zA-Z0-9])?)(?:\.(?:[a-zA-Z0-9](?:[a-zA-Z0-9-]*[a-zA-Z0-9])?))*\.?:[0-9]+)|(?:[a-zA-Z0-9]*[A-Z][a-zA-Z0-9-]*[a-zA-Z0-9]|[a-zA-Z0-9][a-zA-Z0-9-]*[A-Z][a-zA-Z0-9]*)|localhost(?::[0-9]+)?))/)?([a-z0-9]+(?:(?:\.|_|__|-+)[a-z0-9]+)*(?:/[a-z0-9]+(?:(?:\.|_|__|-+)[a-z0-9]+)*)*)(?::([a-zA-Z0-9_][a-zA-Z0-9._-]{0,127}))?(?:@([A-Za-z][A-Za-z0-9]*(?:[-_+.][A-Za-z][A-Za-z0-9]*)*[:][[:xdigit:]]{32,}))?$");
+  ("ocidirRE", "^([/a-zA-Z0-9_\-. ~\+]+)(?::([a-zA-Z0-9_][a-zA-Z0-9._-]{0,127}))?(?:@([A-Za-z][A-Za-z0-9]*(?:[-_+.][A-Za-z][A-Za-z0-9]*)*[:][[:xdigit:]]{32,}))?$")
+].
+Proof. reflexivity. Qed.
